@@ -5,6 +5,8 @@ pid, root = sys.argv[1], sys.argv[2]
 p = [json.loads(l) for l in open('/verif/properties.jsonl')]
 p = [x for x in p if x['id'] == pid][0]
 wt = f"{root}/{pid}"
+import os
+known = open(os.environ['KNOWN_AUDIT']).read().strip() if os.environ.get('KNOWN_AUDIT') else ''
 print(f"""You are auditing the Go project tailscale/setec (a secrets service) against ONE semantic property. Your job: decide whether the code AS IT IS violates the property for some input, state, error path, interleaving or configuration — and if so, demonstrate it with a failing test. Do not change any non-test source file.
 
 Property {p['id']}: {p['title']}
@@ -18,7 +20,9 @@ then work exclusively inside {wt}. Never modify anything under /repo itself, nev
 
 How to work: read the anchored code closely and hunt for corner cases the statement covers but the code may not: boundary values, empty/nil/zero inputs, unusual but legal inputs (JSON null, duplicate entries, names with odd characters), error paths (a failing disk, cache, audit sink, network, key service), restarts, cancellation and deadlines, two operations overlapping in time, configuration extremes. For each suspicion write a small Go test (file zz_audit_test.go in the relevant package, test names starting with TestAudit, in-package access allowed, no network, under a minute) and run it. A test that FAILS on the unchanged code and whose failure is a genuine violation of the statement (not merely of your expectations — re-read the statement) is a finding.
 
+{known}
+
 Deliver a directory {wt}/_audit/ containing:
-  REPORT.md — for each finding: what the statement promises, the exact input/state/schedule that breaks it, what the code does instead, where in the code (file:line) and why, and how serious it is; then a list of the suspicions you tested that turned out to be fine (one line each). If you found nothing after a thorough look, say so and list what you tested.
+  REPORT.txt — for each finding: what the statement promises, the exact input/state/schedule that breaks it, what the code does instead, where in the code (file:line) and why, and how serious it is; then a list of the suspicions you tested that turned out to be fine (one line each). If you found nothing after a thorough look, say so and list what you tested.
   a copy of zz_audit_test.go (keep only tests that demonstrate findings plus at most three of the passing probes).
 Leave the test file in place in the worktree (untracked). In your final answer, list the findings in at most 8 lines (or say that you found none).""")
